@@ -136,20 +136,16 @@ Definition opt_N_eqb (a b : option N) : bool :=
 Definition push_mark (df : option N) (stack : list N) : list N :=
   match df with Some c => c :: stack | None => stack end.
 
-(* [frozen]: inside the items of a list of lists no field may open or join another defer (the
-   pass-through seek of the renderer does not enter nested lists: fieldNodeKindAllowsSeek);
-   [ctx] = the mark of the nearest enclosing field *)
-Fixpoint scope_ok (descs : list ddesc) (stack : list N) (ctx : option N) (frozen : bool) (n : dnode) : bool :=
+Fixpoint scope_ok (descs : list ddesc) (stack : list N) (n : dnode) : bool :=
   match n with
   | DLeaf l => is_leaf_node l
-  | DArr _ _ item => scope_ok descs stack ctx (frozen || match item with DArr _ _ _ => true | _ => false end) item
+  | DArr _ _ item => scope_ok descs stack item
   | DObj _ _ _ _ fields =>
     (fix go (fs : list dfield) : bool :=
        match fs with
        | [] => true
        | DFld _ _ _ df v :: r =>
-         (if frozen then opt_N_eqb df ctx else scope_field_ok descs stack df) &&
-         scope_ok descs (push_mark df stack) df frozen v && go r
+         scope_field_ok descs stack df && scope_ok descs (push_mark df stack) v && go r
        end) fields
   end.
 
@@ -226,7 +222,7 @@ Definition root_ok (root : dnode) : bool :=
 
 Definition defer_plan_wf (descs : list ddesc) (root : dnode) (tree : option dtree) : bool :=
   descs_wf descs && shape_ok descs tree && group_ids_nodup tree &&
-  root_ok root && scope_ok descs [] None false root && paths_ok descs [] None root && names_ok root.
+  root_ok root && scope_ok descs [] root && paths_ok descs [] None root && names_ok root.
 
 (* ---------------------------------------------------------------- 3. reconstruction *)
 (* JSON trees up to the order of object members (the merge appends deferred members after the
@@ -480,3 +476,13 @@ Fixpoint strict_clean (n : dnode) (parent : json) (tns : list (option bytes)) : 
     | Some _ => false
     end
   end.
+
+(* the errors one batch collects (pre-walk, then print walk unless the pre-walk found no deliverable data) *)
+Definition batch_errors (descs : list ddesc) (root : dnode) (data : json) (d : ddesc) : list gerr :=
+  let '(data1, _, _, st1) := dwalk descs (Some d) root data [] [] false false (wst0 []) in
+  if ws_null st1 then ws_errs st1
+  else let '(_, _, _, st2) := dwalk descs (Some d) root data1 [] [] true false (wst0 (ws_errs st1)) in ws_errs st2.
+(* hasError of the pre-walk of the initial frame: "data":null is printed *)
+Definition initial_failed (descs : list ddesc) (root : dnode) (data : json) : bool :=
+  let '(_, s1, _, _) := dwalk descs None root data [] [] false false (wst0 []) in
+  match s1 with WOk => false | _ => true end.
